@@ -32,7 +32,7 @@ def gen(rng, tier):
             # variables that print alike (1 / "1"), or that are spelled like the stack symbols to_pda() invents
             g["valmode"] = rng.pick(["pvar", "termname"])
         return {"kind": "cfg", "g": g}
-    return {"kind": "pda", "p": GP.gen_pda(rng)}
+    return {"kind": "pda", "p": GP.gen_pda(rng, int_inputs=True)}
 
 
 def shrink(case):
@@ -81,10 +81,13 @@ def run(case, out):
         return
     p = case["p"]
     ref = GP.ref_of(p)
+    if p.get("inmode") == "int":
+        out.probe("int_input_symbols")
     out.shape = GP.shape_digest(p)
     out.fault("value_hash" if p.get("hash") else "hashseed_only")
     le = ref.lang_empty_stack(N)
     lf = ref.lang_final_state(N)
+    ple = {_plain(w) for w in le}        # the same words with every symbol value printed (what the grammar side compares)
     out.nontrivial = len(le) >= 2 or len(lf) >= 2
     if not p["finals"]:
         out.probe("no_final_states")
@@ -106,11 +109,13 @@ def run(case, out):
     if g is not FAILED:
         rg = GC.extract(g)
         got = {tuple(k.split(":", 1)[1] for k in w) for w in rg.words_upto(N)}
-        _diff(out, "to_cfg:language", got, le)
+        _diff(out, "to_cfg:language", got, ple)
         # the library's own membership on the produced grammar
-        gl = out.call("to_cfg.contains", lambda: {w for w in _words(p["inputs"], 3) if g.contains(list(w))})
+        gl = out.call("to_cfg.contains", lambda: {tuple(str(x) for x in w)
+                                                  for w in _words([GP.iv(p, a) for a in p["inputs"]], 3)
+                                                  if g.contains(list(w))})
         if gl is not FAILED:
-            _diff(out, "to_cfg:contains-of-result", gl, {w for w in le if len(w) <= 3})
+            _diff(out, "to_cfg:contains-of-result", gl, {w for w in ple if len(w) <= 3})
     f = out.call("to_final_state", GP.build(p).to_final_state)
     if f is not FAILED:
         _diff(out, "to_final_state:language", GP.extract(f).lang_final_state(N), le)
@@ -135,7 +140,12 @@ def run(case, out):
         if g2 is not FAILED and len(ry.states) <= 4:
             rg2 = GC.extract(g2)
             got2 = {tuple(k.split(":", 1)[1] for k in w) for w in rg2.words_upto(N)}
-            _diff(out, first + ".to_cfg:language", got2, ry.lang_empty_stack(N))
+            _diff(out, first + ".to_cfg:language", got2, {_plain(w) for w in ry.lang_empty_stack(N)})
+
+
+def _plain(w):
+    """a word of PDA symbol keys with int symbols printed (key "int:0" -> "0"), as the grammar side prints them"""
+    return tuple(x.split(":", 1)[1] if x.startswith("int:") else x for x in w)
 
 
 def _words(alpha, n):
